@@ -1,6 +1,7 @@
 import RtenVerif.Driver.Util
 import RtenVerif.Model.LoaderConst
 import RtenVerif.Model.RtenHeader
+import RtenVerif.Model.Protobuf
 
 namespace RtenVerif.Driver.C05
 open RtenVerif.Driver RtenVerif.LoaderConst
@@ -66,7 +67,11 @@ def handleHdr (ovf : Bool) (v mo ml tdo flen : Nat) : String :=
 * `rten <rel|ovf> inline <ty> <dims|-> n=<n>`
 * `rten <rel|ovf> stored <ty> <dims|-> tdo=<n|-> off=<n> slen=<n>`
 * `rtenold …` same, answered by the model of the code before the C05 fixes
-* `hdr <rel|ovf> <version> <model_offset> <model_len> <tensor_data_offset> <file_len>` -/
+* `hdr <rel|ovf> <version> <model_offset> <model_len> <tensor_data_offset> <file_len>`
+* `nest <subgraph|raw> <depth>`: an ONNX file whose embedded messages nest `depth` levels below the
+  top-level message, along fields the schema decodes as messages → `err:parse` iff
+  `depth > Protobuf.maxDepth` (C38 `c38_depth_limit`: an embedded message at depth ≥ 100 is refused),
+  else `past-parse` -/
 def handle (line : String) : String :=
   match words line with
   | ["onnx", dt, dims, raw, ext, f, i32, i64, f64] =>
@@ -109,6 +114,10 @@ def handle (line : String) : String :=
       else if kw == "rtenold" then some (showOutcome (Old.addGraphConstant ovf f c))
       else none
     r.getD "bad-request"
+  | ["nest", _, d] =>
+    match d.toNat? with
+    | some d => if d > RtenVerif.Protobuf.maxDepth then "err:parse" else "past-parse"
+    | none => "bad-request"
   | ["hdr", mode, v, mo, ml, tdo, flen] =>
     match parseMode mode, v.toNat?, mo.toNat?, ml.toNat?, tdo.toNat?, flen.toNat? with
     | some ovf, some v, some mo, some ml, some tdo, some flen => handleHdr ovf v mo ml tdo flen
